@@ -313,11 +313,10 @@ fn pivot_cloud(rng: &mut Rng) {
                 }
             }
             v.require(bad_touch.is_none(), "ball_pivot.centre_one_radius_from_both_points", || format!("n={n} radius={radius} step {:?}", bad_touch));
-            // KNOWN FINDING (KNOWN_FINDINGS.txt): a candidate whose contact angle is positive but below the 1e-6 rad
-            // guard of the pivot loop is skipped; the ball then rolls over that point.  Such a point lay (to within
-            // 1e-5 of the radius) ON an earlier ball of the sequence - three points on one ball - before it ended up
-            // inside.  Only that situation gets the listed clause name; any other point inside a ball is reported
-            // under the unlisted one.
+            // (repaired in /repo, fix 1ef1ccb, and no longer listed as known: a candidate whose contact angle was
+            // positive but below the 1e-6 rad guard of the pivot loop was skipped and the ball rolled over that
+            // point.  Such a point lay - to within 1e-5 of the radius - ON an earlier ball of the sequence as a
+            // third point.  The situation keeps its own clause name so that a recurrence is recognisable.)
             let cocircular = bad_inside.map_or(false, |(j, k, _): (usize, usize, f64)| {
                 // a THIRD point on ball q (not one of its two contacts)
                 (0..=j).any(|q| q + 1 < idx.len() && k != idx[q] && k != idx[q + 1] && ((centers[q] - pts[k]).norm() - radius).abs() <= 1e-5 * radius)
